@@ -32,6 +32,16 @@ def adt_base(ty):
     return ty.split("<", 1)[0]
 
 
+def loops_of(f):
+    """block sets of the natural loops of f (blocks that can reach themselves)"""
+    out = []
+    for b in f.reachable():
+        r = f.reach_from(f.succ(b))
+        if b in r:
+            out.append(set(x for x in r if b in f.reach_from(f.succ(x))) | {b})
+    return out
+
+
 def public_seq(fn):
     out = []
     for (m, l, t, bi) in transcript.sequence(fn, pat=SEQ_PAT):
@@ -89,6 +99,12 @@ def run(ck):
                 continue
             ck.ob("COV", f.path, "field:" + fl, covered, "statement field `%s` reaches the transcript" % fl, f.loc())
         seq = public_seq(f)
+        # every entry is made on every path through public(): an entry behind a condition leaves the challenge independent of
+        # that part of the statement whenever the condition fails (entries inside a loop over a vector are per element)
+        rets = [bi for bi in f.reachable() if f.term(bi)["k"] == "return"]
+        condl = sorted(set(str(l) for (m, l, _, bi) in transcript.sequence(f, SEQ_PAT) if not all(f.dominates(bi, a) for a in rets) and not any(bi in lp for lp in loops_of(f))))
+        ck.ob("DOM", f.path, "transcript-entries-unconditional", not condl,
+              "all transcript entries of public() are made on every path" if not condl else "entries %s are made on some paths only" % condl, f.loc())
         key = base
         if key in ref.get("public", {}):
             seen_ref.add(key)
